@@ -28,7 +28,14 @@ RULE = ("sweep (exhaustive): for each of the 92 .nff tables every node (both as 
         "Xray.sld; compounds are renderings of generated derivation trees over the atoms with tables, with density, "
         "1-4 energies relative to one constituent's table, a density factor, mirror angles and roughness; f0: all 209 "
         "coefficient sets that name an atom/ion, through element, isotope, D/T routes and the documented symbol "
-        "spellings, at Q=0, 1e-9 .. 24pi, 24pi +- ulps, beyond. Oracle = interpolation of the independently read table "
+        "spellings, at Q=0, 1e-9 .. 24pi, 24pi +- ulps, beyond. unusual inputs: the same compounds with all counts times one factor 10^x, x in [-14, 12] "
+        "with a third of the draws in the outer 4 decades (dict {atom: n*k}, k*formula(...), and the string '(...)k' with k "
+        "spelled as a decimal), densities 10^[-12, 2], energy/wavelength given as int, numpy int64/float64/float32 scalars, "
+        "0-d arrays, int lists/tuples/int64 arrays, float tuples, length-1 vectors, float32 arrays, compound positional or "
+        "by keyword, through xray_sld, scattering_factors, Xray.sld, index_of_refraction and mirror_reflectivity (the last "
+        "against a plain-Python Fresnel formula); the SLD must not change when all counts are scaled. scans: one vector "
+        "object changed in place between 2-3 calls, each call judged for the current values. "
+        "Oracle = interpolation of the independently read table "
         "(NaN outside the range / where f1 is -9999), SLD = r_e N_A rho/m sum(n f) 1e-8, n = 1 - lambda^2/2pi (rho + i "
         "irho) 1e-6, Cromer-Mann sum; metamorphic: scalar vs vector, energy vs wavelength, density*k, isotopes replaced "
         "by elements at equal natural_density, reflectivity in [0,1]. non-trivial = an energy within 2 nodes of an "
@@ -49,6 +56,9 @@ ASSUMPTIONS = [
     "a 'vector' argument is a plain list or a numpy array: lists are always used for scattering_factors/sld/"
     "xray_sld/f0 (as the repository's tests do) and in a quarter of the index_of_refraction/mirror_reflectivity calls",
     "where rho is NaN (f1 not available) the complex index of refraction may be NaN in both parts",
+    "a float32 energy is judged at the float32 value; a float32 wavelength is converted to energy in float32 arithmetic "
+    "by numpy's promotion rules, so it is judged with a window of 2^-21 relative and index_of_refraction/"
+    "mirror_reflectivity are not judged for float32 arguments",
     "Xray.sld of an ion is not judged (the documented N = rho/m N_A does not say whether m is the ion mass)",
     "f0 -> Z - charge as Q -> 0 is judged at Q = 0 and 1e-9 with |diff| <= 0.05 electrons (largest over the file: 0.038)",
 ]
